@@ -10,6 +10,7 @@ import (
 	"sort"
 	"strings"
 	"sync"
+	"syscall"
 	"time"
 )
 
@@ -225,6 +226,15 @@ type solverRun struct {
 func runSolver(ctx context.Context, name string, args []string, file string) solverRun {
 	t0 := time.Now()
 	cmd := exec.CommandContext(ctx, args[0], append(args[1:], file)...)
+	// solvers may be wrapper scripts: kill the whole process group and do not wait for inherited pipes
+	cmd.SysProcAttr = &syscall.SysProcAttr{Setpgid: true}
+	cmd.Cancel = func() error {
+		if cmd.Process != nil {
+			syscall.Kill(-cmd.Process.Pid, syscall.SIGKILL)
+		}
+		return nil
+	}
+	cmd.WaitDelay = 500 * time.Millisecond
 	var buf bytes.Buffer
 	cmd.Stdout = &buf
 	cmd.Stderr = &buf
